@@ -441,35 +441,7 @@ func (e *syncEngine) covReset(calls []string) {
 	if reset == nil {
 		return
 	}
-	info := c.info(reset)
-	assigned := map[*types.Var]bool{}
-	ast.Inspect(reset.Decl.Body, func(n ast.Node) bool {
-		as, ok := n.(*ast.AssignStmt)
-		if !ok {
-			return true
-		}
-		for i, l := range as.Lhs {
-			sel, ok := core.Unparen(l).(*ast.SelectorExpr)
-			if !ok || i >= len(as.Rhs) {
-				continue
-			}
-			fv := core.FieldOf(info, sel)
-			if fv == nil {
-				continue
-			}
-			if core.IsMap(fv.Type()) {
-				if c.isFreshMap(reset, as.Rhs[i], 0) {
-					assigned[fv] = true
-				}
-				continue
-			}
-			// a struct of index maps replaced as a whole: X.refs = referenceAnalysis{…: make(…)} or a constructor call
-			for f := range c.freshMapFields(reset, as.Rhs[i], 0) {
-				assigned[f] = true
-			}
-		}
-		return true
-	})
+	assigned := c.freshAssignedFields(reset)
 	n := 0
 	var walk func(st *types.Struct, prefix string)
 	walk = func(st *types.Struct, prefix string) {
@@ -1461,4 +1433,39 @@ func (e *syncEngine) calleeMutatesDoc(cf *core.FuncInfo) bool {
 		}
 	}
 	return false
+}
+
+// freshAssignedFields: the map members (directly, or inside a struct replaced as a whole) that the function assigns a
+// newly made map.
+func (c *Ctx) freshAssignedFields(reset *core.FuncInfo) map[*types.Var]bool {
+	info := c.info(reset)
+	assigned := map[*types.Var]bool{}
+	ast.Inspect(reset.Decl.Body, func(n ast.Node) bool {
+		as, ok := n.(*ast.AssignStmt)
+		if !ok {
+			return true
+		}
+		for i, l := range as.Lhs {
+			sel, ok := core.Unparen(l).(*ast.SelectorExpr)
+			if !ok || i >= len(as.Rhs) {
+				continue
+			}
+			fv := core.FieldOf(info, sel)
+			if fv == nil {
+				continue
+			}
+			if core.IsMap(fv.Type()) {
+				if c.isFreshMap(reset, as.Rhs[i], 0) {
+					assigned[fv] = true
+				}
+				continue
+			}
+			// a struct of index maps replaced as a whole: X.refs = referenceAnalysis{…: make(…)} or a constructor call
+			for f := range c.freshMapFields(reset, as.Rhs[i], 0) {
+				assigned[f] = true
+			}
+		}
+		return true
+	})
+	return assigned
 }
